@@ -212,8 +212,6 @@ class IntervalDelegation(Sub):
             z, u1 = case["zu"]
             u2 = S.clamp_u(u1 + case["span"])
             s, e = pendulum.instance(T.render(u1, z)), pendulum.instance(T.render(u2, z))
-            if (T.naive_us(e) > T.naive_us(s)) != (u2 > u1) and u1 != u2:
-                raise Skip("wall order differs from instant order (K-C05-1 region)")
             span = u2 - u1
         else:
             s = pendulum.datetime(1970, 1, 1).add(microseconds=case["u1"] % US).add(seconds=case["u1"] // US)
